@@ -57,7 +57,7 @@ def run(chk):
             kinds["iter_multi"] += 1
     for k, v in kinds.items():
         if v < 10 and not chk.violations:
-            raise ToolError("vacuity: branch %s exercised only %d times" % (k, v))
+            chk.vacuity("vacuity: branch %s exercised only %d times" % (k, v))
     chk.cov["distinct_nontrivial"] = len(bufs)
     return chk.finish("model_checking", RULE, extra={"branches": kinds, "pieces": tags})
 
